@@ -165,10 +165,17 @@ pub fn expand<T: AsRef<Path>>(path: T) -> RvResult<PathBuf> {
 
                     while chars.peek().is_some() {
                         // Extract chars up to $ and consumes $ as it has to look at it
-                        str += &chars.by_ref().take_while(|&x| x != '$').collect::<String>();
+                        let mut dollar = false;
+                        str += &chars
+                            .by_ref()
+                            .take_while(|&x| {
+                                dollar = x == '$';
+                                !dollar
+                            })
+                            .collect::<String>();
 
-                        // Read variable if it exists
-                        if chars.peek().is_some() {
+                        // Read the variable that has to follow a $
+                        if dollar {
                             chars.next_if_eq(&'{'); // drop {
                             let var = &chars.take_while_p(|&x| x != '$' && x != '}').collect::<String>();
                             chars.next_if_eq(&'}'); // drop }
